@@ -21,11 +21,15 @@
 EXTENDS Naturals, Sequences, FiniteSets, TLC
 
 CONSTANTS MaxOps,      \* bound on the number of operations in a history
-          RunNames     \* explicit run names tried with --run-name
+          RunNames,    \* explicit run names tried with --run-name
+          Priors       \* states the directory may be in at the start: sets of run numbers P, standing for the
+                       \* earlier history "install run1 .. run<max P> one after the other, then clean every run
+                       \* not in P" (the highest run survives, so runN points to it).  {} = a fresh directory.
 
 FLAT == "FLAT"
 NONE == "none"
-MaxNum == MaxOps + 1
+Max(S) == IF S = {} THEN 0 ELSE CHOOSE m \in S : \A x \in S : x <= m
+MaxNum == MaxOps + 1 + Max(UNION Priors)
 RunName(i) == "run" \o ToString(i)
 Numbered == {RunName(i) : i \in 1..MaxNum}
 Num(r) == CHOOSE i \in 1..MaxNum : RunName(i) = r
@@ -38,7 +42,6 @@ Dirs == DOMAIN runs
 NumberedDirs == Dirs \cap Numbered
 NamedDirs == Dirs \cap RunNames
 HasFlat == FLAT \in Dirs
-Max(S) == IF S = {} THEN 0 ELSE CHOOSE m \in S : \A x \in S : x <= m
 Stamp == Len(hist) + 1          \* the source is edited before every operation
 Without(f, r) == [x \in DOMAIN f \ {r} |-> f[x]]
 With(f, r, v) == [x \in DOMAIN f \cup {r} |-> IF x = r THEN v ELSE f[x]]
@@ -47,7 +50,16 @@ Log(op, arg, ok, new, reuse) ==
   hist' = Append(hist, [op |-> op, arg |-> arg, ok |-> ok, new |-> new, reuse |-> reuse])
 Refuse(op, arg) == Log(op, arg, FALSE, NONE, FALSE) /\ UNCHANGED <<runs, runN, ever>>
 
-Init == runs = [x \in {} |-> 0] /\ runN = NONE /\ hist = <<>> /\ ever = {}
+RECURSIVE NumList(_)
+NumList(P) == IF P = {} THEN "" ELSE LET m == CHOOSE x \in P : \A y \in P : x <= y
+                                      IN ToString(m) \o (IF P = {m} THEN "" ELSE "," \o NumList(P \ {m}))
+\* the earlier history is logged as one pseudo-operation "prior" (it counts as one of the MaxOps operations)
+Init == \E P \in Priors :
+          IF P = {} THEN runs = [x \in {} |-> 0] /\ runN = NONE /\ hist = <<>> /\ ever = {}
+          ELSE /\ runs = [x \in {RunName(i) : i \in P} |-> 1]
+               /\ runN = RunName(Max(P))
+               /\ ever = 1..Max(P)
+               /\ hist = <<[op |-> "prior", arg |-> NumList(P), ok |-> TRUE, new |-> RunName(Max(P)), reuse |-> FALSE]>>
 
 \* get_next_rundir_number: from runN when the link exists and resolves, else from the names.
 RunNUsable == runN # NONE /\ runN \in Dirs
@@ -124,7 +136,7 @@ Exclusive ==
 
 InstallOps == {"install", "install-run-name", "install-no-run-name"}
 LastNumberedInstall ==
-  LET I == {i \in 1..Len(hist) : hist[i].op = "install" /\ hist[i].ok} IN
+  LET I == {i \in 1..Len(hist) : hist[i].op \in {"install", "prior"} /\ hist[i].ok} IN
   IF I = {} THEN NONE ELSE hist[Max(I)].new
 
 \* runN, while it exists, points to an existing run, the highest-numbered one,
